@@ -2,32 +2,105 @@
 
 Lean: ZI/Props/C20.lean.  Tie: declarations built from nested argument trees (tuples, lists, plain declarations, class
 specifications) over random interface DAGs and class hierarchies; list(A), `I in A` for every I, A - B and A + B for all
-ordered operand pairs (declarations and bare interfaces) compared with the model on both twins.
-Oracle: the statement's laws evaluated directly in the harness (its own flattening, reachability, placement rule);
-flattened() and operand purity are checked inside the executor."""
+ordered operand pairs (declarations and bare interfaces), and the order of A.flattened() for declarations, class
+specifications, sums and differences, compared with the model on both twins.  The interface DAGs include (40 % of the scripts)
+interfaces without a C3 order, biased towards hierarchies whose legacy orders disagree with the order of an ancestor, and
+declarations that name an ancestor of an interface they already name (`implementer(IDerived, IBase)`).
+Oracle: the statement's laws evaluated directly in the harness (its own flattening, reachability, placement rule; for
+flattened(): members, validity, textbook C3 of the declaration whenever it exists, else the documented order: C3 over the
+bases' orders, the legacy order where that merge is stuck, Interface last); operand purity is checked inside the executor."""
 from .. import core, runner
 from . import worldcommon
 from . import c03
 
 THEOREMS = ["ZI.Decl.C20_iter", "ZI.Decl.C20_mem", "ZI.Decl.C20_sub", "ZI.Decl.C20_add", "ZI.Decl.mem_dedupe", "ZI.Decl.dedupe_nodup",
-            "ZI.Decl.dedupe_dedupe", "ZI.Decl.normalizeList_interch", "ZI.Decl.addLoop_placement", "ZI.Decl.add_spec", "ZI.Decl.mem_sub"]
+            "ZI.Decl.dedupe_dedupe", "ZI.Decl.normalizeList_interch", "ZI.Decl.addLoop_placement", "ZI.Decl.add_spec", "ZI.Decl.mem_sub",
+            "ZI.Decl.C20_flattened", "ZI.Decl.C20_flattened_c3"]
+
+
+def odd_bases(rnd, ib, i):
+    """a base list for interface i that zope.interface accepts and Python would refuse for classes (no C3 order: the
+    interface gets its legacy order), or one that sets such a list up for a later interface; None = no such shape yet"""
+    anc = {b: sorted(c03.reach(ib, b) - {b, 0}) for b in range(1, i)}
+    shape = rnd.choice("aabcdd")
+    if shape == "d":          # an ancestor before its descendant, and another ancestor of that one mentioned again behind it
+        cands = [(a, b, x) for b in anc for a in anc[b] for x in anc[b] if a not in c03.reach(ib, x) and x not in c03.reach(ib, a)]
+        if not cands:
+            shape = "a"
+        else:
+            a, b, x = rnd.choice(cands)
+            down = [j for j in range(1, i) if x in c03.reach(ib, j) and b not in c03.reach(ib, j) and j not in c03.reach(ib, b)]
+            return [a, b, rnd.choice(down) if down and rnd.random() < 0.4 else x]
+    if shape == "a":          # an ancestor listed before its descendant, possibly among other bases
+        cands = [b for b in anc if anc[b]]
+        if not cands:
+            return None
+        b = rnd.choice(cands)
+        bs = [rnd.choice(anc[b]), b]
+        if i > 3 and rnd.random() < 0.5:
+            x = rnd.choice([j for j in range(1, i) if j not in bs])
+            bs.insert(rnd.randint(0, 2), x)
+        return bs
+    if shape == "b":          # the base list of an earlier interface, permuted: the two orders contradict each other
+        cands = [b for b in range(1, i) if len(ib[b]) >= 2]
+        if not cands:
+            return None
+        bs = list(ib[rnd.choice(cands)])
+        rnd.shuffle(bs)
+        return bs
+    if i < 3:
+        return None
+    return rnd.sample(range(1, i), min(i - 1, rnd.choice([2, 2, 3])))      # anything goes
+
+
+def subseq(a, b):
+    it = iter(b)
+    return all(x in it for x in a)
+
+
+def disagreeing_ancestors(ib, only=None):
+    """{i: the strict ancestors of interface i whose own resolution order is not embedded in i's}.  C3 is monotonic, so this
+    takes an interface without a C3 order (its legacy order need not respect the orders of its bases)."""
+    g = spec_graph(ib, {}, [])
+    memo, stuck = {}, set()
+    out = {}
+    for i in ([only] if only else [k for k in ib if k]):
+        oi = documented_order(g, i, memo, stuck)
+        out[i] = [b for b in oi[1:] if b and not subseq(documented_order(g, b, memo, stuck), oi)]
+    return out
 
 
 def gen_script(rnd, tier):
     L = ["reset"]
-    n = rnd.randint(2, 7)
+    # "all interface DAGs": also those in which some interfaces have no C3 order (`mixed`)
+    mixed = rnd.random() < 0.4
+    n = rnd.randint(5, 8) if mixed else rnd.randint(2, 7)
     ib = {0: []}
     for i in range(1, n + 1):
-        for _ in range(8):
-            bs = rnd.sample(range(1, i), min(i - 1, rnd.choice([0, 1, 1, 2])))
-            b2 = dict(ib)
-            b2[i] = bs or [0]
-            if c03.cpython_mirror_mro(b2, i) is not None:
-                break
-        else:
-            bs = []
+        bs = None
+        if mixed and i >= 3 and rnd.random() < 0.6:
+            for _ in range(10):          # preferably a list that makes the interface's order disagree with an ancestor's
+                cand = odd_bases(rnd, ib, i)
+                if cand is None:
+                    continue
+                bs = cand
+                b2 = dict(ib)
+                b2[i] = bs
+                if disagreeing_ancestors(b2, i)[i]:
+                    break
+        if bs is None:
+            for _ in range(8):
+                bs = rnd.sample(range(1, i), min(i - 1, rnd.choice([0, 1, 2, 2] if mixed else [0, 1, 1, 2])))
+                b2 = dict(ib)
+                b2[i] = bs or [0]
+                if c03.cpython_mirror_mro(b2, i) is not None:
+                    break
+            else:
+                bs = []
         ib[i] = bs or [0]
         L.append("iface %d : %s" % (i, " ".join(map(str, bs))))
+    dis = disagreeing_ancestors(ib) if mixed else {}
+    nonmono = [i for i in dis if dis[i]]
     nc = rnd.randint(0, 3)
     cls = {}
     pycls = {}
@@ -46,6 +119,9 @@ def gen_script(rnd, tier):
         dec = rnd.sample(range(1, n + 1), rnd.randint(0, min(2, n)))
         if rnd.random() < 0.5:
             dec = sorted(dec, reverse=True)       # sub-interfaces before their bases: a consistent declaration order
+        if nonmono and rnd.random() < 0.3:        # implementer(ISub, IBase) where ISub's order disagrees with IBase's
+            dec = [rnd.choice(nonmono)]
+            dec.append(rnd.choice(dis[dec[0]]))
         if not only:
             # a declaration that is redundant with what the class inherits may be dropped (C01); keep the two readings
             # of "declared then inherited" identical by not generating such declarations
@@ -58,20 +134,31 @@ def gen_script(rnd, tier):
         r = [j for j in range(1, n + 1) if x in c03.reach(ib, j) or j in c03.reach(ib, x)]
         return rnd.choice(r)
 
-    def tree(d, pool):
+    def tree(d, pool, cur=None):
+        cur = [] if cur is None else cur          # the interfaces named so far anywhere in this tree
         toks, k = [], rnd.randint(0 if d else 1, 3)
         for _ in range(k):
             r = rnd.random()
             if r < 0.55 or d >= 2:
                 x = rnd.choice(pool) if pool and rnd.random() < 0.6 else rnd.randint(1, n)
+                if nonmono and rnd.random() < 0.25:
+                    x = rnd.choice(nonmono)
+                if cur and rnd.random() < (0.4 if mixed else 0.2):
+                    # implementer(IDerived, IBase): an interface that is redundant with one already named (mostly an ancestor)
+                    y = rnd.choice(cur)
+                    up = sorted(c03.reach(ib, y) - {y, 0})
+                    if dis.get(y) and rnd.random() < 0.6:
+                        up = dis[y]
+                    x = rnd.choice(up) if up and rnd.random() < 0.75 else rel(y)
+                cur.append(x)
                 toks.append("i%d" % x)
             elif r < 0.65 and nc:
                 toks.append("c%d" % rnd.randint(1, nc))
             elif r < 0.85:
                 o, c = rnd.choice([("(", ")"), ("[", "]"), ("G(", ")")])
-                toks += [o] + tree(d + 1, pool) + [c]
+                toks += [o] + tree(d + 1, pool, cur) + [c]
             else:
-                toks += ["D("] + tree(d + 1, pool) + [")"]
+                toks += ["D("] + tree(d + 1, pool, cur) + [")"]
         return toks
 
     names = []
@@ -90,12 +177,20 @@ def gen_script(rnd, tier):
     for nm in names:
         L.append("iter " + nm)
         L.append("memall " + nm)
+        L.append("flat " + nm)
+    for c in range(1, nc + 1):
+        if rnd.random() < 0.5:
+            L.append("flat c%d" % c)
     ops = names + ["i%d" % rnd.randint(1, n), "i%d" % rel(pool[0]) if pool else "i1"]
     for a in names:
         for b in ops:
             if a != b or rnd.random() < 0.3:
                 L.append("sub %s %s" % (a, b))
+                if rnd.random() < 0.15:
+                    L.append("flat %s - %s" % (a, b))
                 L.append("add %s %s" % (a, b))
+                if rnd.random() < 0.35:
+                    L.append("flat %s + %s" % (a, b))
     return L
 
 
@@ -127,7 +222,7 @@ def parse(toks, pos=0):
             return acc, pos
         if t in ("(", "[", "D(", "G("):
             inner, pos = parse(toks, pos)
-            acc.append(("seq", inner))
+            acc.append(("decl" if t == "D(" else "seq", inner))
         else:
             acc.append((t[0], int(t[1:])))
     return acc, pos
@@ -145,6 +240,144 @@ def flatten(ib, cls, tree):
     return out
 
 
+# ---- resolution order (for flattened()): the specification graph and two independent references ------------------
+OBJ, TOP = 1000, 2000        # node numbers: interface i = i (0 = Interface), implementedBy(object) = 1000, class c = 1000 + c, the declaration = 2000
+
+
+def atoms(ib, cls, tree):
+    """the declaration's direct bases: interfaces and class specifications as named, nested sequences flattened in place,
+    a nested plain declaration replaced by its interfaces"""
+    out = []
+    for k, v in tree:
+        if k == "i":
+            out.append(v)
+        elif k == "c":
+            out.append(OBJ + v)
+        elif k == "decl":
+            out += dedupe(flatten(ib, cls, v))
+        else:
+            out += atoms(ib, cls, v)
+    return out
+
+
+def spec_graph(ib, cls, top):
+    g = {0: [], OBJ: [], TOP: list(top)}
+    for i, bs in ib.items():
+        if i:
+            g[i] = list(bs) or [0]
+    for c, (pyb, dec, only) in cls.items():
+        g[OBJ + c] = list(dec) + ([] if only else [OBJ + b for b in pyb] or [OBJ])
+    return g
+
+
+def legacy_order(g, x):
+    """the pre-5.0 order: depth-first, bases left to right, of everything listed more than once the LAST mention kept"""
+    flat = []
+
+    def walk(o):
+        flat.append(o)
+        for b in g[o]:
+            walk(b)
+    walk(x)
+    return [o for k, o in enumerate(flat) if o not in flat[k + 1:]]
+
+
+def root_last(order):
+    return order if order[-1] == 0 else [o for o in order if o != 0] + [0]
+
+
+def documented_order(g, x, memo, stuck):
+    """the resolution order as the library documents it: C3 over the resolution orders of the direct bases and the list of
+    direct bases; the legacy order of the object when that merge cannot continue; Interface last.  `stuck` collects the
+    objects that got their legacy order."""
+    if x not in memo:
+        if x == 0:
+            memo[x] = [0]
+        else:
+            m = c03.textbook_merge([documented_order(g, b, memo, stuck) for b in g[x]] + [list(g[x])])
+            if m is None:
+                stuck.add(x)
+            memo[x] = root_last([x] + m if m is not None else legacy_order(g, x))
+    return memo[x]
+
+
+def c3_order(g, x):
+    """textbook C3 of the hierarchy in which Interface is the root of everything (None: there is none)"""
+    gm = {k: (list(v) or [0]) if k else [] for k, v in g.items()}
+    return c03.lin(gm, x)
+
+
+def judge_flat(chk, g, node, members, got):
+    """`got` = the interfaces yielded by flattened() of specification `node` of g whose iteration yields `members`; returns complaints"""
+    chk.count("flat_judged")
+    want_set = {0}
+    for m in members:
+        want_set |= {x for x in c03.reach(g, m) if x < OBJ}
+    if len(set(got)) != len(got):
+        return ["flattened() yields an interface twice: %s" % got]
+    if set(got) != want_set:
+        return ["flattened() yields %s, its interfaces %s plus everything they extend are %s" % (got, members, sorted(want_set))]
+    pos = {x: k for k, x in enumerate(got)}
+    for x in got:
+        for b in g[x]:
+            if pos[b] < pos[x]:
+                return ["flattened() = %s is not a resolution order: %d comes after its base %d" % (got, x, b)]
+    if got[-1] != 0:
+        return ["flattened() = %s does not end with Interface" % got]
+    top = g[node]
+    ifs = [a for a in top if a < OBJ]
+    if any(b != a and b in c03.reach(g, a) for k, a in enumerate(ifs) for b in ifs[k + 1:]):
+        chk.count("flat_ancestor_named_after_descendant")
+    if len(set(top)) != len(top):
+        chk.count("flat_guard_duplicate_bases")          # G-nodup: validity only (and the model)
+        return []
+    memo, stuck = {}, set()
+    doc = [x for x in documented_order(g, node, memo, stuck) if x < OBJ]
+    c3 = c3_order(g, node)
+    if c3 is not None:
+        chk.count("flat_c3_exists")
+        c3 = [x for x in c3 if x < OBJ]
+        if c3 != doc:
+            raise core.Infra("oracle self-check failed: textbook C3 %s vs documented resolution order %s on %s" % (c3, doc, g))
+        if got != c3:
+            return ["flattened() = %s, the C3 resolution order of the declaration is %s" % (got, c3)]
+        return []
+    chk.count("flat_no_c3")
+    if node in stuck:
+        chk.count("flat_declaration_gets_legacy_order")
+        if any(b in stuck for b in top):
+            chk.count("flat_merge_stuck_with_legacy_ordered_base")
+    else:
+        chk.count("flat_c3_merge_over_legacy_ordered_ancestors")
+    if any(a in stuck and b != a and b in c03.reach(g, a) for k, a in enumerate(top) for b in top[k + 1:]):
+        chk.count("flat_ancestor_named_after_legacy_ordered_descendant")
+    if any(b != a and b in c03.reach(g, a) and not subseq(memo[b], memo[a]) for k, a in enumerate(top) for b in top[k + 1:]):
+        chk.count("flat_ancestor_named_after_descendant_whose_order_disagrees")
+    if got != doc:
+        def show(xs):
+            return "[%s]" % ", ".join(str(x) if x < OBJ else "implementedBy(object)" if x == OBJ else "c%d" % (x - OBJ) for x in xs)
+        return ["flattened() = %s, the resolution order of the declaration is %s (%s)" % (
+            got, doc, "no C3 order among its bases' orders %s: legacy order" % ", ".join(show(memo[b]) for b in top) if node in stuck
+            else "C3 over its bases' orders %s; legacy-ordered: %s" % (", ".join(show(memo[b]) for b in top), show(sorted(stuck - {TOP}))))]
+    return []
+
+
+def add_law(ext, A, B):
+    before, res = [], list(A)
+    for b in B:
+        if b in res or b in before:
+            continue
+        if any(ext(b, x) and b != x for x in res):
+            before.append(b)
+        else:
+            res.append(b)
+    return before + res
+
+
+def sub_law(ext, A, B):
+    return [a for a in A if not any(ext(a, b) for b in B)]
+
+
 def spec_consistent(ib, cls, c):
     """does implementedBy(c) have a C3 order (the generator avoids declarations Python itself would refuse)"""
     return True
@@ -159,19 +392,25 @@ def oracle(chk, lines, outs):
     for i, (line, out) in enumerate(zip(lines, outs)):
         f = line.split()
         if f[0] == "reset":
-            ib, cls, decls = {0: []}, {}, {}
+            ib, cls, decls, bases_of = {0: []}, {}, {}, {}
             continue
         if out.startswith("err") or out == "bad" or "FLAT-" in out or "IMPURE" in out or "NOT-A-DECL" in out or "?" in out:
             bad.append((i, "%s -> %s" % (line, out)))
             continue
         if f[0] == "iface":
             ib[int(f[1])] = [int(x) for x in f[3:]] or [0]
+            if c03.lin(ib, int(f[1])) is None:
+                if all(c03.lin(ib, b) is not None for b in ib[int(f[1])]):
+                    chk.count("interfaces_given_a_legacy_order")
+                if disagreeing_ancestors(ib, int(f[1]))[int(f[1])]:
+                    chk.count("interfaces_whose_order_disagrees_with_an_ancestor")
         elif f[0] == "class":
             rest = f[4:]
             k = rest.index("|")
             cls[int(f[1])] = ([int(x) for x in rest[:k]], [int(x) for x in rest[k + 1:]], f[2] == "1")
         elif f[0] == "decl":
             decls[f[1]] = dedupe(flatten(ib, cls, parse(f[3:])[0]))
+            bases_of[f[1]] = atoms(ib, cls, parse(f[3:])[0])
 
         def it(nm):
             return [int(nm[1:])] if nm[0] == "i" and nm[1:].isdigit() else decls[nm]
@@ -179,7 +418,7 @@ def oracle(chk, lines, outs):
         def ext(a, b):       # a is or extends b
             return b in c03.reach(ib, a)
 
-        got = [int(x) for x in out.split()] if f[0] in ("iter", "memall", "sub", "add") else None
+        got = [int(x) for x in out.split()] if f[0] in ("iter", "memall", "sub", "add", "flat") else None
         if f[0] == "iter":
             chk.count("iterations_judged")
             if got != it(f[1]):
@@ -189,7 +428,7 @@ def oracle(chk, lines, outs):
                 bad.append((i, "`I in %s` holds for %s, iteration yields %s" % (f[1], got, sorted(it(f[1])))))
         elif f[0] == "sub":
             A, B = it(f[1]), it(f[2])
-            want = [a for a in A if not any(ext(a, b) for b in B)]
+            want = sub_law(ext, A, B)
             chk.count("operand_pairs")
             if any(ext(a, b) and a != b for a in A for b in B):
                 chk.count("pairs_related_by_inheritance")
@@ -197,17 +436,22 @@ def oracle(chk, lines, outs):
                 bad.append((i, "%s - %s = %s, keeping in order exactly the interfaces of %s that neither are nor extend one of %s gives %s" % (f[1], f[2], got, A, B, want)))
         elif f[0] == "add":
             A, B = it(f[1]), it(f[2])
-            before, res = [], list(A)
-            for b in B:
-                if b in res or b in before:
-                    continue
-                if any(ext(b, x) and b != x for x in res):
-                    before.append(b)
-                else:
-                    res.append(b)
-            want = before + res
+            want = add_law(ext, A, B)
             if got != want:
                 bad.append((i, "%s + %s = %s, expected %s (no duplicates, %s's order kept, new extenders in front, the others at the end)" % (f[1], f[2], got, want, f[1])))
+        elif f[0] == "flat":
+            # "A.flattened() yields them plus everything they extend in resolution order"
+            node, top = TOP, []
+            if len(f) == 4:
+                members = top = (add_law if f[2] == "+" else sub_law)(ext, it(f[1]), it(f[3]))
+            elif f[1][0] == "c":
+                node = OBJ + int(f[1][1:])          # a class specification: bases = declared, then the specifications of the class's bases
+                members = expand_cls(ib, cls, int(f[1][1:]))
+            else:
+                top, members = bases_of[f[1]], it(f[1])
+            g = spec_graph(ib, cls, top)
+            for msg in judge_flat(chk, g, node, members, got):
+                bad.append((i, "%s: %s" % (" ".join(f[1:]), msg)))
     return bad
 
 
@@ -255,10 +499,12 @@ def check(tier):
         core.lean_failure_violation(chk)
     chk.samples.append(scripts[0])
     return chk.finish(len(lines), chk.counters.get("pairs_related_by_inheritance", 0),
-                      "random interface DAGs (2-7) and class hierarchies (0-3, incl. *only* declarations), 2-3 declarations from nested argument trees "
-                      "(tuples, lists, plain declarations, class specifications; depth <= 3; later trees biased towards relatives of earlier ones), list / membership "
-                      "of each, - and + for all ordered operand pairs incl. bare interfaces, flattened() and operand purity; distinct_nontrivial = operand pairs in "
-                      "which some interface of A strictly extends one of B")
+                      "random interface DAGs (2-8; 40 % of the scripts with interfaces that have no C3 order, biased towards legacy orders that disagree with "
+                      "an ancestor's order) and class hierarchies (0-3, incl. *only* declarations), 2-3 declarations from nested argument trees "
+                      "(tuples, lists, plain declarations, class specifications; depth <= 3; later trees biased towards relatives of earlier ones, tokens towards "
+                      "ancestors of interfaces already named), list / membership of each, - and + for all ordered operand pairs incl. bare interfaces, the order "
+                      "of flattened() of declarations, class specifications, sums and differences (counters flat_*), operand purity; distinct_nontrivial = operand "
+                      "pairs in which some interface of A strictly extends one of B")
 
 
 def replay(path):
